@@ -632,8 +632,8 @@ theorem batchLoop_sizes (k : Nat) (hk : 1 < k) : ∀ (ls coll : List Nat), coll.
     · rename_i hlen
       exact ih (coll ++ [l]) (by simp at hlen ⊢; omega) b hb
 
-theorem storeReaderFrames_eq (store : StoreFn φ) (genKey : Bool) (mp : Option Nat) (labels : List Nat) :
-    storeReaderFrames store genKey mp labels = labels.map fun l => store (readerCfgKey genKey mp l) l := by
+theorem storeReaderFrames_eq (store : StoreFn φ) (pinnedReader : Bool) (mp : Option Nat) (labels : List Nat) :
+    storeReaderFrames store pinnedReader mp labels = labels.map fun l => store (readerCfgKey pinnedReader mp l) l := by
   unfold storeReaderFrames
   rw [List.flatMap_def, ← List.map_flatten, storeReaderBatches_flatten]
 
@@ -777,10 +777,10 @@ theorem all_loaded_of_flag {s : BusSt φ} {P : Nat → φ → Prop} (hinv : Inv 
   simpa using h'
 
 /-- common preparation for `updateCache`: the targets and what the invariant says about them -/
-theorem updateCache_prep {P : Nat → φ → Prop} {store : StoreFn φ} {genKey : Bool} {s : BusSt φ}
+theorem updateCache_prep {P : Nat → φ → Prop} {store : StoreFn φ} {pinnedReader : Bool} {s : BusSt φ}
     {ps : List Nat} {isElement : Bool}
     (hinv : Inv P s) (hR1 : ∀ l, P l (store (some l) l))
-    (hR2 : ∀ l, P l (store (readerCfgKey genKey s.maxPersist l) l))
+    (hR2 : ∀ l, P l (store (readerCfgKey pinnedReader s.maxPersist l) l))
     (hps : ∀ p ∈ ps, p < s.labels.length) (hel : isElement = true → ps.length ≤ 1) :
     ∃ targets, targetsOf s ps = some targets ∧ targets.map (·.1) = pick s.labels ps ∧
       (∀ t ∈ targets, ∃ p, p ∈ ps ∧ s.labels[p]? = some t.1 ∧ s.cache[p]? = some t.2) ∧
@@ -788,7 +788,7 @@ theorem updateCache_prep {P : Nat → φ → Prop} {store : StoreFn φ} {genKey 
       (∀ t ∈ targets, t.1 ∈ s.labels) ∧ (∀ t ∈ targets, ∀ f, t.2 = some f → P t.1 f) ∧
       Aligned P targets
         (if isElement then targets.map fun t => store (some t.1) t.1
-         else storeReaderFrames store genKey s.maxPersist ((targets.filter fun t => t.2.isNone).map (·.1))) ∧
+         else storeReaderFrames store pinnedReader s.maxPersist ((targets.filter fun t => t.2.isNone).map (·.1))) ∧
       ((if s.loadedAll then false else !(ps.all fun p => s.loaded[p]? == some true)) = false →
         ∀ p ∈ ps, s.loaded[p]? = some true) := by
   obtain ⟨targets, htg⟩ := targetsOf_some s hinv.lenCache ps hps
@@ -815,18 +815,18 @@ theorem updateCache_prep {P : Nat → φ → Prop} {store : StoreFn φ} {genKey 
       simpa using this
 
 /-- `_update_series_cache_iloc`, max_persist = None -/
-theorem updateCache_none {P : Nat → φ → Prop} {store : StoreFn φ} {genKey : Bool} {st : StoreSt} {s : BusSt φ}
+theorem updateCache_none {P : Nat → φ → Prop} {store : StoreFn φ} {pinnedReader : Bool} {st : StoreSt} {s : BusSt φ}
     {ps : List Nat} {isElement : Bool}
     (hinv : Inv P s) (hmp : s.maxPersist = none) (hR1 : ∀ l, P l (store (some l) l))
-    (hR2 : ∀ l, P l (store (readerCfgKey genKey none l) l))
+    (hR2 : ∀ l, P l (store (readerCfgKey pinnedReader none l) l))
     (hps : ∀ p ∈ ps, p < s.labels.length) (hel : isElement = true → ps.length ≤ 1) :
-    (∃ s', s.updateCache store genKey st ps isElement = .ok s' ∧ Inv P s' ∧ s'.labels = s.labels ∧
+    (∃ s', s.updateCache store pinnedReader st ps isElement = .ok s' ∧ Inv P s' ∧ s'.labels = s.labels ∧
         s'.maxPersist = none ∧
         (∀ i : Nat, s.loaded[i]? = some true → s'.loaded[i]? = some true) ∧
         ∀ p ∈ ps, s'.loaded[p]? = some true)
-    ∨ (∃ e s', s.updateCache store genKey st ps isElement = .error (e, s') ∧ StoreFailed st φ e) := by
+    ∨ (∃ e s', s.updateCache store pinnedReader st ps isElement = .error (e, s') ∧ StoreFailed st φ e) := by
   obtain ⟨targets, htg, htlab, htmem, htps, hmemL, hsnap, hal, hnoload⟩ :=
-    updateCache_prep (store := store) (genKey := genKey) (isElement := isElement) hinv hR1 (by rw [hmp]; exact hR2) hps hel
+    updateCache_prep (store := store) (pinnedReader := pinnedReader) (isElement := isElement) hinv hR1 (by rw [hmp]; exact hR2) hps hel
   unfold BusSt.updateCache
   simp only [htg, hmp, Option.isSome_none]
   by_cases hload : (if s.loadedAll then false else !(ps.all fun p => s.loaded[p]? == some true)) = false
@@ -842,7 +842,7 @@ theorem updateCache_none {P : Nat → φ → Prop} {store : StoreFn φ} {genKey 
     have ha0 : ArrInv P s.labels
         { array := s.cache, loaded := s.loaded, lru := s.lru, count := s.loaded.count true,
           reader := (if isElement then targets.map fun t => store (some t.1) t.1
-            else storeReaderFrames store genKey none ((targets.filter fun t => t.2.isNone).map (·.1))) } :=
+            else storeReaderFrames store pinnedReader none ((targets.filter fun t => t.2.isNone).map (·.1))) } :=
       ⟨hinv.lenCache, hinv.flags, hinv.content⟩
     rcases loopRun_none (st := st) hinv.labelsNodup targets _ ha0 hmemL hsnap hal with
       ⟨ls', hrun, ha', hlru', hmono, hset⟩ | ⟨e, ls', hrun, hfail⟩
@@ -866,16 +866,16 @@ theorem updateCache_none {P : Nat → φ → Prop} {store : StoreFn φ} {genKey 
       exact ⟨e, _, rfl, hfail⟩
 
 /-- `_update_series_cache_iloc`, max_persist = some k: the recency list is the abstract LRU run -/
-theorem updateCache_some {P : Nat → φ → Prop} {store : StoreFn φ} {genKey : Bool} {st : StoreSt} {s : BusSt φ}
+theorem updateCache_some {P : Nat → φ → Prop} {store : StoreFn φ} {pinnedReader : Bool} {st : StoreSt} {s : BusSt φ}
     {ps : List Nat} {isElement : Bool} {k : Nat}
     (hinv : Inv P s) (hmp : s.maxPersist = some k) (hR1 : ∀ l, P l (store (some l) l))
-    (hR2 : ∀ l, P l (store (readerCfgKey genKey (some k) l) l))
+    (hR2 : ∀ l, P l (store (readerCfgKey pinnedReader (some k) l) l))
     (hps : ∀ p ∈ ps, p < s.labels.length) (hel : isElement = true → ps.length ≤ 1) :
-    (∃ s', s.updateCache store genKey st ps isElement = .ok s' ∧ Inv P s' ∧ s'.labels = s.labels ∧
+    (∃ s', s.updateCache store pinnedReader st ps isElement = .ok s' ∧ Inv P s' ∧ s'.labels = s.labels ∧
         s'.maxPersist = some k ∧ s'.lru = (pick s.labels ps).foldl (absTouch k) s.lru)
-    ∨ (∃ e s', s.updateCache store genKey st ps isElement = .error (e, s') ∧ StoreFailed st φ e) := by
+    ∨ (∃ e s', s.updateCache store pinnedReader st ps isElement = .error (e, s') ∧ StoreFailed st φ e) := by
   obtain ⟨targets, htg, htlab, htmem, htps, hmemL, hsnap, hal, hnoload⟩ :=
-    updateCache_prep (store := store) (genKey := genKey) (isElement := isElement) hinv hR1 (by rw [hmp]; exact hR2) hps hel
+    updateCache_prep (store := store) (pinnedReader := pinnedReader) (isElement := isElement) hinv hR1 (by rw [hmp]; exact hR2) hps hel
   have hmpS : s.maxPersist.isSome = true := by rw [hmp]; rfl
   unfold BusSt.updateCache
   simp only [htg, hmp, Option.isSome_some]
@@ -914,12 +914,12 @@ theorem updateCache_some {P : Nat → φ → Prop} {store : StoreFn φ} {genKey 
     have ha0 : ArrInv P s.labels
         { array := s.cache, loaded := s.loaded, lru := s.lru, count := s.loaded.count true,
           reader := (if isElement then targets.map fun t => store (some t.1) t.1
-            else storeReaderFrames store genKey (some k) ((targets.filter fun t => t.2.isNone).map (·.1))) } :=
+            else storeReaderFrames store pinnedReader (some k) ((targets.filter fun t => t.2.isNone).map (·.1))) } :=
       ⟨hinv.lenCache, hinv.flags, hinv.content⟩
     have hl0 : LruInv s.labels
         { array := s.cache, loaded := s.loaded, lru := s.lru, count := s.loaded.count true,
           reader := (if isElement then targets.map fun t => store (some t.1) t.1
-            else storeReaderFrames store genKey (some k) ((targets.filter fun t => t.2.isNone).map (·.1))) } :=
+            else storeReaderFrames store pinnedReader (some k) ((targets.filter fun t => t.2.isNone).map (·.1))) } :=
       ⟨hinv.lruNodup, hinv.lruSub, hinv.lruMem hmpS, rfl, hinv.lruLen hmpS⟩
     rcases loopRun_some (st := st) (k := k) hinv.labelsNodup targets _ ha0 hl0 (hinv.bound k hmp) hmemL hsnap hal with
       ⟨ls', hrun, ha', hl', hb', hlru'⟩ | ⟨e, ls', hrun, hfail⟩
@@ -1157,17 +1157,17 @@ theorem mem_absTouch_self {k : Nat} (hk : 1 ≤ k) (lru : List Nat) (l : Nat) : 
   · simp
 
 /-- `_update_series_cache_iloc` under the representation invariant (both max_persist cases). -/
-theorem updateCache_spec {P : Nat → φ → Prop} {store : StoreFn φ} {genKey : Bool} {st : StoreSt} {s : BusSt φ}
+theorem updateCache_spec {P : Nat → φ → Prop} {store : StoreFn φ} {pinnedReader : Bool} {st : StoreSt} {s : BusSt φ}
     {ps : List Nat} {isElement : Bool}
     (hinv : Inv P s) (hR1 : ∀ l, P l (store (some l) l))
-    (hR2 : ∀ l, P l (store (readerCfgKey genKey s.maxPersist l) l))
+    (hR2 : ∀ l, P l (store (readerCfgKey pinnedReader s.maxPersist l) l))
     (hps : ∀ p ∈ ps, p < s.labels.length) (hel : isElement = true → ps.length ≤ 1) :
-    (∃ s', s.updateCache store genKey st ps isElement = .ok s' ∧ Inv P s' ∧ s'.labels = s.labels ∧
+    (∃ s', s.updateCache store pinnedReader st ps isElement = .ok s' ∧ Inv P s' ∧ s'.labels = s.labels ∧
         s'.maxPersist = s.maxPersist ∧
         (∀ k, s.maxPersist = some k → s'.lru = (pick s.labels ps).foldl (absTouch k) s.lru) ∧
         (s.maxPersist = none → (∀ i : Nat, s.loaded[i]? = some true → s'.loaded[i]? = some true) ∧
             ∀ p ∈ ps, s'.loaded[p]? = some true))
-    ∨ (∃ e s', s.updateCache store genKey st ps isElement = .error (e, s') ∧ StoreFailed st φ e) := by
+    ∨ (∃ e s', s.updateCache store pinnedReader st ps isElement = .error (e, s') ∧ StoreFailed st φ e) := by
   rcases Option.eq_none_or_eq_some s.maxPersist with hmp | ⟨k, hmp⟩
   · rcases updateCache_none (st := st) hinv hmp hR1 (by rw [← hmp]; exact hR2) hps hel with
       ⟨s', h1, h2, h3, h4, h5, h6⟩ | h
@@ -1182,11 +1182,11 @@ theorem updateCache_spec {P : Nat → φ → Prop} {store : StoreFn φ} {genKey 
     · right; exact h
 
 /-- outcome of an extraction on a Bus that satisfies the invariant -/
-theorem extractIloc_spec {P : Nat → φ → Prop} {store : StoreFn φ} {genKey : Bool} {st : StoreSt} {s : BusSt φ}
+theorem extractIloc_spec {P : Nat → φ → Prop} {store : StoreFn φ} {pinnedReader : Bool} {st : StoreSt} {s : BusSt φ}
     {k : Key}
     (hinv : Inv P s) (hR1 : ∀ l, P l (store (some l) l))
-    (hR2 : ∀ l, P l (store (readerCfgKey genKey s.maxPersist l) l)) :
-    (∃ s' r ps, s.extractIloc store genKey st k = .ok (s', r) ∧ Inv P s' ∧ s'.labels = s.labels ∧
+    (hR2 : ∀ l, P l (store (readerCfgKey pinnedReader s.maxPersist l) l)) :
+    (∃ s' r ps, s.extractIloc store pinnedReader st k = .ok (s', r) ∧ Inv P s' ∧ s'.labels = s.labels ∧
         s'.maxPersist = s.maxPersist ∧ k.positions s.labels.length = .ok ps ∧
         (∀ kk, s.maxPersist = some kk → s'.lru = (pick s.labels ps).foldl (absTouch kk) s.lru) ∧
         (s.maxPersist = none → (∀ i : Nat, s.loaded[i]? = some true → s'.loaded[i]? = some true) ∧
@@ -1194,7 +1194,7 @@ theorem extractIloc_spec {P : Nat → φ → Prop} {store : StoreFn φ} {genKey 
         (match r with
          | .element v => k.isMulti = false ∧ ∃ p, ps = [p] ∧ p < s.labels.length ∧ s'.cache[p]? = some v
          | .bus d => k.isMulti = true ∧ Inv P d ∧ d.labels = pick s.labels ps ∧ d.maxPersist = s.maxPersist))
-    ∨ (∃ e s', s.extractIloc store genKey st k = .error (e, s') ∧
+    ∨ (∃ e s', s.extractIloc store pinnedReader st k = .error (e, s') ∧
         (StoreFailed st φ e ∨ (s' = s ∧ (k.positions s.labels.length = .error e ∨ e = .nonUnique)))) := by
   unfold BusSt.extractIloc
   cases hpos : k.positions s.labels.length with
@@ -1246,11 +1246,11 @@ namespace SF.Bus
 open SF
 variable {φ : Type}
 
-theorem extractIloc_inv {P : Nat → φ → Prop} {store : StoreFn φ} {genKey : Bool} {st : StoreSt} {s s' : BusSt φ}
+theorem extractIloc_inv {P : Nat → φ → Prop} {store : StoreFn φ} {pinnedReader : Bool} {st : StoreSt} {s s' : BusSt φ}
     {k : Key} {r : Extracted φ}
     (hinv : Inv P s) (hR1 : ∀ l, P l (store (some l) l))
-    (hR2 : ∀ l, P l (store (readerCfgKey genKey s.maxPersist l) l))
-    (h : s.extractIloc store genKey st k = .ok (s', r)) :
+    (hR2 : ∀ l, P l (store (readerCfgKey pinnedReader s.maxPersist l) l))
+    (h : s.extractIloc store pinnedReader st k = .ok (s', r)) :
     Inv P s' ∧ s'.labels = s.labels ∧ s'.maxPersist = s.maxPersist ∧
     (∀ d, r = .bus d → Inv P d ∧ d.maxPersist = s.maxPersist) := by
   rcases extractIloc_spec (st := st) (k := k) hinv hR1 hR2 with
@@ -1265,12 +1265,12 @@ theorem extractIloc_inv {P : Nat → φ → Prop} {store : StoreFn φ} {genKey :
   · rw [h1] at h; cases h
 
 /-- element access delivers a Frame (never the placeholder) when max_persist is None or ≥ 1 -/
-theorem extractIloc_element_some {P : Nat → φ → Prop} {store : StoreFn φ} {genKey : Bool} {st : StoreSt}
+theorem extractIloc_element_some {P : Nat → φ → Prop} {store : StoreFn φ} {pinnedReader : Bool} {st : StoreSt}
     {s s' : BusSt φ} {k : Key} {v : Option φ}
     (hinv : Inv P s) (hR1 : ∀ l, P l (store (some l) l))
-    (hR2 : ∀ l, P l (store (readerCfgKey genKey s.maxPersist l) l))
+    (hR2 : ∀ l, P l (store (readerCfgKey pinnedReader s.maxPersist l) l))
     (hk : ∀ kk, s.maxPersist = some kk → 1 ≤ kk)
-    (h : s.extractIloc store genKey st k = .ok (s', .element v)) :
+    (h : s.extractIloc store pinnedReader st k = .ok (s', .element v)) :
     ∃ p l f, k.positions s.labels.length = .ok [p] ∧ s.labels[p]? = some l ∧ v = some f ∧ P l f := by
   rcases extractIloc_spec (st := st) (k := k) hinv hR1 hR2 with
     ⟨s1, r1, ps, h1, h2, h3, h4, h5, h6, h7, h8⟩ | ⟨e, s1, h1, _⟩
@@ -1297,11 +1297,11 @@ theorem extractIloc_element_some {P : Nat → φ → Prop} {store : StoreFn φ} 
       exact ⟨p, s.labels[p], f, h5, hlab, rfl, h2.content p _ f (by rw [h3]; exact hlab) hv⟩
   · rw [h1] at h; cases h
 
-theorem iterElements_inv {P : Nat → φ → Prop} {store : StoreFn φ} {genKey : Bool} {st : StoreSt}
+theorem iterElements_inv {P : Nat → φ → Prop} {store : StoreFn φ} {pinnedReader : Bool} {st : StoreSt}
     (hR1 : ∀ l, P l (store (some l) l)) :
     ∀ (is : List Nat) (s : BusSt φ) (acc : List (Option φ)) (s' : BusSt φ) (vs : List (Option φ)),
-      Inv P s → (∀ l, P l (store (readerCfgKey genKey s.maxPersist l) l)) →
-      BusSt.iterElements store genKey st s is acc = .ok (s', vs) →
+      Inv P s → (∀ l, P l (store (readerCfgKey pinnedReader s.maxPersist l) l)) →
+      BusSt.iterElements store pinnedReader st s is acc = .ok (s', vs) →
       Inv P s' ∧ s'.labels = s.labels ∧ s'.maxPersist = s.maxPersist := by
   intro is
   induction is with
@@ -1322,11 +1322,11 @@ theorem iterElements_inv {P : Nat → φ → Prop} {store : StoreFn φ} {genKey 
       exact ⟨h4, by rw [h5, h2], by rw [h6, h3]⟩
     · cases h
 
-theorem values_inv {P : Nat → φ → Prop} {store : StoreFn φ} {genKey : Bool} {st : StoreSt} {s s' : BusSt φ}
+theorem values_inv {P : Nat → φ → Prop} {store : StoreFn φ} {pinnedReader : Bool} {st : StoreSt} {s s' : BusSt φ}
     {vs : List (Option φ)}
     (hinv : Inv P s) (hR1 : ∀ l, P l (store (some l) l))
-    (hR2 : ∀ l, P l (store (readerCfgKey genKey s.maxPersist l) l))
-    (h : s.values store genKey st = .ok (s', vs)) :
+    (hR2 : ∀ l, P l (store (readerCfgKey pinnedReader s.maxPersist l) l))
+    (h : s.values store pinnedReader st = .ok (s', vs)) :
     Inv P s' ∧ s'.labels = s.labels ∧ s'.maxPersist = s.maxPersist := by
   unfold BusSt.values at h
   split at h
@@ -1347,11 +1347,11 @@ theorem values_inv {P : Nat → φ → Prop} {store : StoreFn φ} {genKey : Bool
       exact ⟨hinv, rfl, rfl⟩
   · exact iterElements_inv hR1 _ s [] s' vs hinv hR2 h
 
-theorem step_inv {P : Nat → φ → Prop} {store : StoreFn φ} {genKey : Bool} {st : StoreSt} {s s' : BusSt φ}
+theorem step_inv {P : Nat → φ → Prop} {store : StoreFn φ} {pinnedReader : Bool} {st : StoreSt} {s s' : BusSt φ}
     {op : BusOp}
     (hinv : Inv P s) (hR1 : ∀ l, P l (store (some l) l))
-    (hR2 : ∀ l, P l (store (readerCfgKey genKey s.maxPersist l) l))
-    (h : s.step store genKey st op = .ok s') :
+    (hR2 : ∀ l, P l (store (readerCfgKey pinnedReader s.maxPersist l) l))
+    (h : s.step store pinnedReader st op = .ok s') :
     Inv P s' ∧ s'.labels = s.labels ∧ s'.maxPersist = s.maxPersist := by
   cases op with
   | access k =>
@@ -1373,11 +1373,11 @@ theorem step_inv {P : Nat → φ → Prop} {store : StoreFn φ} {genKey : Bool} 
     simp only [BusSt.step, Except.ok.injEq] at h; subst h
     exact ⟨hinv, rfl, rfl⟩
 
-theorem run_inv {P : Nat → φ → Prop} {store : StoreFn φ} {genKey : Bool} {st : StoreSt}
+theorem run_inv {P : Nat → φ → Prop} {store : StoreFn φ} {pinnedReader : Bool} {st : StoreSt}
     (hR1 : ∀ l, P l (store (some l) l)) :
     ∀ (ops : List BusOp) (s s' : BusSt φ), Inv P s →
-      (∀ l, P l (store (readerCfgKey genKey s.maxPersist l) l)) →
-      BusSt.run store genKey st s ops = .ok s' →
+      (∀ l, P l (store (readerCfgKey pinnedReader s.maxPersist l) l)) →
+      BusSt.run store pinnedReader st s ops = .ok s' →
       Inv P s' ∧ s'.labels = s.labels ∧ s'.maxPersist = s.maxPersist := by
   intro ops
   induction ops with
@@ -1507,12 +1507,12 @@ theorem loopRun_stale {st : StoreSt} {labels : List Nat} {mp : Option Nat} (hn :
 
 /-- On a stale store an access that needs a load raises StoreFileMutation; flags and cells are untouched
     (only the recency list may have been touched). -/
-theorem updateCache_stale {P : Nat → φ → Prop} {store : StoreFn φ} {genKey : Bool} {st : StoreSt} {s : BusSt φ}
+theorem updateCache_stale {P : Nat → φ → Prop} {store : StoreFn φ} {pinnedReader : Bool} {st : StoreSt} {s : BusSt φ}
     {ps : List Nat} {isElement : Bool}
     (hinv : Inv P s) (hst : st.file ≠ st.seen)
     (hps : ∀ p ∈ ps, p < s.labels.length) (hel : isElement = true → ps.length ≤ 1)
     (hneed : ∃ p ∈ ps, s.loaded[p]? = some false) :
-    ∃ s', s.updateCache store genKey st ps isElement = .error (.storeMutation, s') ∧
+    ∃ s', s.updateCache store pinnedReader st ps isElement = .error (.storeMutation, s') ∧
       s'.loaded = s.loaded ∧ s'.cache = s.cache ∧ s'.labels = s.labels ∧ s'.maxPersist = s.maxPersist := by
   have hlenL : s.loaded.length = s.labels.length := by rw [hinv.flags]; simp [hinv.lenCache]
   obtain ⟨targets, htg⟩ := targetsOf_some s hinv.lenCache ps hps
@@ -1547,7 +1547,7 @@ theorem updateCache_stale {P : Nat → φ → Prop} {store : StoreFn φ} {genKey
     | some f => rw [h2] at hif; cases hif
   have hal : Aligned (fun _ _ => True) targets
       (if isElement then targets.map fun t => store (some t.1) t.1
-       else storeReaderFrames store genKey s.maxPersist ((targets.filter fun t => t.2.isNone).map (·.1))) := by
+       else storeReaderFrames store pinnedReader s.maxPersist ((targets.filter fun t => t.2.isNone).map (·.1))) := by
     cases isElement with
     | true =>
       simp only [if_true]
@@ -1560,7 +1560,7 @@ theorem updateCache_stale {P : Nat → φ → Prop} {store : StoreFn φ} {genKey
   obtain ⟨ls', hrun, hl'⟩ := loopRun_stale (st := st) (mp := s.maxPersist) hinv.labelsNodup hst s.loaded targets
     { array := s.cache, loaded := s.loaded, lru := s.lru, count := s.loaded.count true,
       reader := (if isElement then targets.map fun t => store (some t.1) t.1
-        else storeReaderFrames store genKey s.maxPersist ((targets.filter fun t => t.2.isNone).map (·.1))) }
+        else storeReaderFrames store pinnedReader s.maxPersist ((targets.filter fun t => t.2.isNone).map (·.1))) }
     rfl (fun k hk => hinv.bound k hk) hflag hal hex
   rw [hrun]
   exact ⟨_, rfl, hl', rfl, rfl, rfl⟩
@@ -1573,12 +1573,12 @@ variable {φ : Type}
 
 /-! ### `items()` / `values` deliver every frame -/
 
-theorem iterElements_values {P : Nat → φ → Prop} {store : StoreFn φ} {genKey : Bool} {st : StoreSt}
+theorem iterElements_values {P : Nat → φ → Prop} {store : StoreFn φ} {pinnedReader : Bool} {st : StoreSt}
     (hR1 : ∀ l, P l (store (some l) l)) :
     ∀ (is : List Nat) (s : BusSt φ) (acc : List (Option φ)) (s' : BusSt φ) (vs : List (Option φ)),
-      Inv P s → (∀ l, P l (store (readerCfgKey genKey s.maxPersist l) l)) →
+      Inv P s → (∀ l, P l (store (readerCfgKey pinnedReader s.maxPersist l) l)) →
       (∀ kk, s.maxPersist = some kk → 1 ≤ kk) → (∀ i ∈ is, i < s.labels.length) →
-      BusSt.iterElements store genKey st s is acc = .ok (s', vs) →
+      BusSt.iterElements store pinnedReader st s is acc = .ok (s', vs) →
       ∃ ws : List (Option φ), vs = acc ++ ws ∧ ws.length = is.length ∧
         ∀ (j i : Nat), is[j]? = some i → ∃ l f, s.labels[i]? = some l ∧ ws[j]? = some (some f) ∧ P l f := by
   intro is
